@@ -5,6 +5,8 @@ CONSTANTS
   HasHf = FALSE
   Absent0 = {}
   Admin = FALSE
+  AlwaysW = TRUE
+  AlwaysPRs = TRUE
   Cmds = {"reset", "force_reset"}
   Rewrites = TRUE
   NP = 2
